@@ -199,27 +199,14 @@ def r2_r6_parser_printer(ctx) -> None:
         r.violation("C05.R6", f.qual, "if escaped: acc.append(escape_char) / if acc: r.append(''.join(acc))", "a trailing escape character or the accumulated remainder is lost", loc)
     # ---- printer
     tp = prog.func(T + ".SigmaString.to_plain")
-    loops = [n for n in walk_no_nested(tp.node) if isinstance(n, ast.For) and unparse(n.iter) == "self.s"]
-    if len(loops) != 1 or not isinstance(loops[0].target, ast.Name):
-        raise AnalysisError(f"{tp.qual}: part loop not found")
-    var = loops[0].target.id
     loc = tp.loc
-
-    class _SC:  # stand-ins so that isinstance tests of the extracted body can be evaluated
-        def __init__(self, n): self.name = n
-        def __hash__(self): return hash(self.name)
-        def __eq__(self, o): return isinstance(o, type(self)) and o.name == self.name
-    class _PH:
-        def __init__(self, n): self.name = n
-    multi, single = _SC("MULTI"), _SC("SINGLE")
-    env0 = {"rs": "", "regex": False, "SpecialChars": _SC, "Placeholder": _PH, "special_char_mapping": {multi: "*", single: "?"},
-            "escape_char": "\\", "char_mapping": {"*": multi, "?": single}}
+    # to_plain() interpreted (sa.tabulate) on stand-in strings of one part each
+    from .standins import string_standin
+    Str, _Cased, _PH, sc, _env = string_standin(ctx)
     table = {}
-    for label, part in (("*", "*"), ("?", "?"), ("\\", "\\"), ("a", "a"), ("MULTI", multi), ("SINGLE", single), ("PH", _PH("x"))):
-        it = Interp({**env0, var: part, "self": None})
+    for label, part in (("*", "*"), ("?", "?"), ("\\", "\\"), ("a", "a"), ("MULTI", sc.WILDCARD_MULTI), ("SINGLE", sc.WILDCARD_SINGLE), ("PH", _PH("x"))):
         try:
-            it.run(loops[0].body)
-            table[label] = it.env["rs"]
+            table[label] = Str([part]).call("to_plain")
         except Raised as e:
             table[label] = f"<raises {e}>"
     want = {"*": "\\*", "?": "\\?", "a": "a", "MULTI": "*", "SINGLE": "?", "PH": "%x%"}
